@@ -415,7 +415,7 @@ func (g *generator) declareNode(v cue.Value) (ast.Type, error) {
 
 		// {...}
 		if len(fields) == 0 {
-			return ast.Any(), nil
+			return ast.Any(ast.Default(defVal)), nil
 		}
 
 		def := ast.NewStruct(fields...)
